@@ -343,6 +343,9 @@ INVALID = [
     ("opt", "PD_gapIV", {"gamma": 0}), ("opt", None, {"gamma": 0}), ("opt", "PD_gap", {"gamma": 2}),
     ("d", 0), ("d", -1), ("d", 1.5), ("d", "2"), ("d", None),
     ("sense", "leq"), ("sense", None), ("sense", "Equality"),
+    # wrapper names that are importable packages but no wrapper of the library (names of packages that are not installed fall back
+    # to cvxpy by documented design and are not in this list)
+    ("wrapper", "scs"), ("wrapper", "numpy"), ("wrapper", "clarabel"), ("wrapper", None), ("wrapper", 3),
     ("block", -1), ("block", -2), ("block", 2), ("block", 5), ("block", None), ("block", "0"),
     # the public attribute set to an invalid value AFTER the constraint was created, the model then solved on either path
     ("sense_after", "Equality"), ("sense_after", "equal"), ("sense_after", ""), ("sense_after", None),
@@ -373,6 +376,8 @@ def run_invalid(case, spec=None, solver="CLARABEL"):
             out = ctx.pep.declare_block_partition(d=val)
         elif name == "sense":
             out = Constraint(ctx.exprs["dn"], val)
+        elif name == "wrapper":
+            out = ctx.pep.solve(verbose=0, wrapper=val, solver="CLARABEL")
         elif name == "block":
             out = ctx.pep.declare_block_partition(d=2).get_block(ctx.points["x0"], val)
         elif name.startswith("sense_after"):
@@ -383,7 +388,7 @@ def run_invalid(case, spec=None, solver="CLARABEL"):
             out = r_["value"]
     except Exception as e:
         return [], {"invalid:%s:raised:%s" % (name, type(e).__name__): 1}
-    if (name in ("return_primal_or_dual", "dimension_reduction_heuristic", "solver") or name.startswith("sense_after")) and out is None:
+    if (name in ("return_primal_or_dual", "dimension_reduction_heuristic", "solver", "wrapper") or name.startswith("sense_after")) and out is None:
         return [], {"invalid:%s:no-value" % name: 1}     # the solver found nothing: nothing was fabricated either
     return [("invalid-option-accepted:%s:%r" % (name, val), "%s=%r%s was accepted and returned %r"
              % (name, val, " (with %s)" % aux if aux else "", out if isinstance(out, float) else type(out).__name__))], {}
